@@ -42,7 +42,9 @@ HOOKS = [None, "", "hook.sh", "missing.sh"]
 LAYOUTS = ["none", "1x1", "1x3", "2x2", "glob", "explicit"]
 RENDERINGS = ["setup.cfg[bumpver]", "setup.cfg[pycalver]", "pyproject.toml", "bumpver.toml", ".bumpver.toml", "pycalver.toml",
               # the same files as they look when saved with Windows line endings
-              "setup.cfg[bumpver]+crlf", "bumpver.toml+crlf"]
+              "setup.cfg[bumpver]+crlf", "bumpver.toml+crlf",
+              # the same content laid out differently: blank and comment lines between the patterns of a file entry and between keys
+              "setup.cfg[bumpver]+airy", "setup.cfg[pycalver]+airy", "bumpver.toml+airy"]
 INI_TRUE = ["yes", "true", "1", "on", "Yes", "TRUE", "On", "True"]
 INI_FALSE = ["no", "false", "0", "off", "No", "FALSE", "Off", "False"]
 
@@ -70,6 +72,20 @@ def render(abstract, rendering):
     if rendering.endswith("+crlf"):
         name, text = render(abstract, rendering[:-5])
         return name, text.replace("\n", "\r\n")
+    if rendering.endswith("+airy"):
+        name, text = render(abstract, rendering[:-5])
+        out, prev_indented = [], False
+        for line in text.split("\n"):
+            indented = line.startswith("    ")
+            if indented and prev_indented:
+                out.append("")  # an empty line between two patterns of one entry
+                if name.endswith(".toml"):
+                    out.append("    # next pattern")
+            if line.startswith(("commit", "tag", "push", "pre_commit")):
+                out += ["", "# a comment between keys"]
+            out.append(line)
+            prev_indented = indented
+        return name, "\n".join(out)
     name = rendering.split("[")[0]
     toml = name.endswith(".toml")
     section = {"setup.cfg[bumpver]": "bumpver", "setup.cfg[pycalver]": "pycalver", "pyproject.toml": "tool.bumpver",
